@@ -141,7 +141,9 @@ def run(ctx):
     # (3) the CLI's brief rendering of strings nested in sequences reads back as the same bytes
     im = ctx.impl("plain")
     alphabet = ['"', "\\", "%", "a", " ", "\x00", "\n", "\t", "\x07", "\x7f", "\x80", "\xff", "1", "0", "x", "s", "(", "'"]
-    strs = [""] + alphabet + [a + b for a in alphabet for b in alphabet]
+    # every byte on its own, and followed by a hex digit, a letter, a quote (an escape must not swallow or lose what follows)
+    every = [chr(b) for b in range(256)]
+    strs = [""] + every + [a + b for a in alphabet for b in alphabet] + [a + b for a in every for b in ("1", "a", "f", '"', "\\")]
     for _ in range(100 if ctx.tier == "quick" else 3000):
         strs.append("".join(rng.choice(alphabet) for _ in range(rng.randint(3, 8))))
 
